@@ -57,7 +57,10 @@ class Ctx:
                 f, info = factsmod.extract(config)
             except factsmod.Inconclusive as e:
                 raise Inconclusive(str(e))
-            from . import inline
+            from . import inline, fieldnames
+            ren = fieldnames.canonicalise(f)
+            if ren:
+                info = dict(info, field_renames=ren)
             inl = inline.inline_helpers(f)
             if inl:
                 info = dict(info, inlined_helpers=inl)
